@@ -94,7 +94,7 @@ func Predict(op *Op) *Expected {
 		}
 		echo := int64(0)
 		if !producer {
-			echo = InputSum(k)
+			echo = op.SumOf(k)
 		}
 		if !producer && op.BadCast {
 			// the input cannot be cast to the declared schema: the turn fails
@@ -129,10 +129,10 @@ func Predict(op *Op) *Expected {
 				ex.Turns = append(ex.Turns, ExpTurn{Kind: "error", ErrAny: true, ErrType: "RuntimeError"})
 			}
 			return ex
-		case "error":
+		case "error", "emiterror":
 			ex.Turns = append(ex.Turns, errTurn(st.Err))
 			return ex
-		case "panic":
+		case "panic", "emitpanic":
 			ex.Turns = append(ex.Turns, ExpTurn{Kind: "error", ErrType: "RuntimeError", ErrAny: true, ErrMsg: hx.PanicText(st.Panic, s.Nonce)})
 			return ex
 		case "noemit", "double":
